@@ -1,6 +1,8 @@
-// Replayer for TLC-generated behaviours of spec/Dom.tla on the real DNode API (C12, C13, C18).
+// Replayer for TLC-generated behaviours of spec/Dom.tla and spec/Sonic.tla (life cycle: parse, mutate, dump, parse
+// again) on the real Document / DNode API (C12, C13, C18; C03 and C06 for the parse and dump steps).
 // usage: rt_dom <alloc:pool|track> <ledgerlog|-> <steps.tsv> <progress> <start>
-// step row: beh step op c a1 a2 a3 exp_root exp_aux ret nl rc rm eqdef eq
+// step row: beh step op c a1 a2 a3 exp_root exp_aux ret nl rc rm eqdef eq exp_dump(hex|-)
+// root is a Document (so that Parse can replace it), aux a free-standing node in the same allocator.
 // After every step: accessor walk of root and aux == R-state; lookups of absent keys; operator== vs
 // the R-model verdict; cross-allocator deep copy equal and independent; (track) ledger problems.
 // 'progress' holds the index of the row being executed; <start> must be the first row of a behaviour.
@@ -20,18 +22,21 @@ static const std::string& intern(const std::string& s) { return *g_intern.insert
 template <typename A>
 struct Runner {
   using N = DNode<A>;
+  using Doc = GenericDocument<N>;
   A alloc;
-  std::unique_ptr<N> root, aux;
-  uint64_t drift_cap = 0, drift_ledger = 0;
+  std::unique_ptr<Doc> root;
+  std::unique_ptr<N> aux;
+  uint64_t drift_cap = 0, drift_ledger = 0, drift_dump = 0;
+  std::string dumped;   // output of the last dump step
 
   N* T(long c) {
-    if (c == 0) return root.get();
+    if (c == 0) return static_cast<N*>(root.get());
     if (c == -1) return aux.get();
     if (root->IsArray()) return &(*root)[(size_t)(c - 1)];
     return &((root->MemberBegin() + (c - 1))->value);
   }
   void reset() {
-    root.reset(new N());
+    root.reset(new Doc(&alloc));
     aux.reset(new N());
   }
   void setscalar(N* t, const std::string& tok) {
@@ -75,7 +80,17 @@ struct Runner {
     else if (op == "copytoaux") aux->CopyFrom(*t, alloc);
     else if (op == "copyfromaux") t->CopyFrom(*aux, alloc);
     else if (op == "swapaux") t->Swap(*aux);
-    else if (op == "movechildup") *root = std::move(*t);
+    else if (op == "movechildup") *static_cast<N*>(root.get()) = std::move(*t);
+    else if (op == "parse") {
+      std::string b = vh::unhex(r[4]);
+      vh::GuardBuf g;   // the text ends at a page boundary: the parser copies it and must not read beyond it
+      char* p = g.place_end(b.size());
+      memcpy(p, b.data(), b.size());
+      root->Parse(p, b.size());
+      *ret = !root->HasParseError();
+    } else if (op == "dump") {
+      dumped = t->Dump();
+    }
     else if (op == "movetoaux") *aux = std::move(*t);
     else return "harness|unknown op " + op;
     return "";
@@ -138,8 +153,29 @@ static int run(const char* logpath, vh::Cases& cs, vh::Progress& pg, size_t star
     std::string prob, wr = vh::Walk(*R.root, prob), wx = vh::Walk(*R.aux, prob);
     bool bad = false;
     if (!prob.empty()) { vh::fail(i, "accessor", prob); bad = true; }
+    const bool isparse = r[2] == "parse";
+    if (isparse && (ret ? "1" : "0") != r[9]) {
+      vh::fail(i, "parse-verdict", std::string("Parse ") + (ret ? "accepts" : "rejects") + " a text the specification " + (ret ? "rejects" : "accepts") +
+               " (error " + std::to_string((int)R.root->GetParseError()) + ") text=" + r[4].substr(0, 120));
+      bad = true;
+    }
     std::string c1 = vh::CompareTokens(r[7], wr, nullptr);
-    if (!c1.empty()) { vh::fail(i, "state", "root after " + r[2] + ": " + c1 + " got=" + wr.substr(0, 160)); bad = true; }
+    if (!c1.empty()) { vh::fail(i, isparse ? "parse-state" : "state", "root after " + r[2] + ": " + c1 + " got=" + wr.substr(0, 160)); bad = true; }
+    if (r[2] == "dump") {
+      // what Dump() gives must be JSON that denotes the target (judged by parsing it back with the library and comparing
+      // with the R-state the specification gives for the target, which the walk above has just confirmed)
+      long c = atol(r[3].c_str());
+      GenericDocument<DNode<B>> pd(&other);
+      pd.Parse(R.dumped.data(), R.dumped.size());
+      std::string p3, wt = vh::Walk(*R.T(c), p3);
+      if (pd.HasParseError()) { vh::fail(i, "dump", "Dump() of cursor " + r[3] + " does not parse: " + R.dumped.substr(0, 120)); bad = true; }
+      else {
+        std::string p4, wd = vh::Walk(pd, p4);
+        if (wd != wt) { vh::fail(i, "dump", "Dump() of cursor " + r[3] + " denotes another value: " + R.dumped.substr(0, 120)); bad = true; }
+      }
+      if (r[6] != "-" && vh::unhex(r[6]) != R.dumped) R.drift_dump++;
+    }
+    if (r[15] != "-" && vh::unhex(r[15]) != R.root->Dump()) R.drift_dump++;
     std::string c2 = vh::CompareTokens(r[8], wx, nullptr);
     if (!c2.empty()) { vh::fail(i, "state", "aux after " + r[2] + ": " + c2 + " got=" + wx.substr(0, 160)); bad = true; }
     if (r[2] == "removemember" && (ret ? "1" : "0") != r[9]) { vh::fail(i, "retval", "RemoveMember returned " + std::to_string(ret)); bad = true; }
@@ -184,7 +220,7 @@ static int run(const char* logpath, vh::Cases& cs, vh::Progress& pg, size_t star
   R.aux.reset();
   if (track && !L.live.empty()) vh::fail(cs.rows.size() - 1, "leak", "blocks still allocated at the end: " + std::to_string(L.live.size()));
   if (L.log) { L.mark("reset"); fclose(L.log); }
-  printf("DRIFT\tcap\t%llu\tledger\t%llu\n", (unsigned long long)R.drift_cap, (unsigned long long)R.drift_ledger);
+  printf("DRIFT\tcap\t%llu\tledger\t%llu\tdump\t%llu\n", (unsigned long long)R.drift_cap, (unsigned long long)R.drift_ledger, (unsigned long long)R.drift_dump);
   printf("N\t%llu\n", (unsigned long long)n);
   return 0;
 }
